@@ -300,6 +300,8 @@ Inductive result :=
 | RMsgs (l : list (Z * bytes * bytes))    (* (delivery tag, consumer tag, body) *)
 | RMsg (dtag : Z) (body : bytes)
 | RErr (e : err)
+| RMsgsErr (l : list (Z * bytes * bytes)) (e : option err)
+    (* messages handed to the application, then an exception (None: of another type) *)
 | RHang                                   (* would wait for ever (no scripted traffic left) *)
 | ROther.                                 (* an exception of another type escapes *)
 
@@ -662,6 +664,17 @@ Definition build_message (fuel : nat) (sc : script) (s : sys) (c : nat) (v : cha
   | _ => (s, v, Ok (Some None), sc)
   end.
 
+(* an exception ends the generator: the messages already handed out stay handed out *)
+Definition fail_after (acc : list (Z * bytes * bytes)) (e : err) : result :=
+  match acc with
+  | [] => if err_eqb e other_err then ROther else RErr e
+  | _ => RMsgsErr acc (if err_eqb e other_err then None else Some e)
+  end.
+
+Definition hang_err : err := {| e_kind := EChan; e_code := Some (-2) |}.  (* never returns *)
+Definition hang_after (acc : list (Z * bytes * bytes)) : result :=
+  match acc with [] => RHang | _ => RMsgsErr acc (Some hang_err) end.
+
 (* build_inbound_messages(break_on_empty=True), collecting the messages;
    `cb` = the tags with a callback (Some: process_data_events dispatch; None: plain generator) *)
 Fixpoint build_loop (fuel : nat) (sc : script) (s : sys) (c : nat) (v : chan)
@@ -674,15 +687,15 @@ Fixpoint build_loop (fuel : nat) (sc : script) (s : sys) (c : nat) (v : chan)
     else
       let '(s1, v1, r, sc1) := build_message fuel' sc s c v in
       match r with
-      | Raise e => (s1, v1, (if err_eqb e other_err then ROther else RErr e), sc1)
-      | Ok None => (s1, v1, RHang, sc1)
+      | Raise e => (s1, v1, fail_after acc e, sc1)
+      | Ok None => (s1, v1, hang_after acc, sc1)
       | Ok (Some (Some m)) =>
-        if cb && negb (mem_tag (snd (fst m)) (c_cbs v1)) then (s1, v1, ROther, sc1)   (* KeyError *)
+        if cb && negb (mem_tag (snd (fst m)) (c_cbs v1)) then (s1, v1, fail_after acc other_err, sc1)   (* KeyError *)
         else build_loop fuel' sc1 s1 c v1 cb (acc ++ [m])
       | Ok (Some None) =>
         let '(s2, v2, r2) := chan_check s1 c v1 in
         match r2 with
-        | Raise e => (s2, v2, RErr e, sc1)
+        | Raise e => (s2, v2, fail_after acc e, sc1)
         | Ok _ =>
           (* sleep: one tick of the script *)
           let '(s3, sc3) := match sc1 with
@@ -696,7 +709,7 @@ Fixpoint build_loop (fuel : nat) (sc : script) (s : sys) (c : nat) (v : chan)
             (* no progress possible any more: same frames, nothing scripted *)
             match sc1 with
             | [] => if (length (c_inbound v3) =? length (c_inbound v))%nat
-                    then (s3, v3, RHang, sc3) else build_loop fuel' sc3 s3 c v3 cb acc
+                    then (s3, v3, hang_after acc, sc3) else build_loop fuel' sc3 s3 c v3 cb acc
             | _ => build_loop fuel' sc3 s3 c v3 cb acc
             end
           end
@@ -811,6 +824,7 @@ Definition result_eqb (a b : result) : bool :=
   | RMsgs x, RMsgs y => list_eqb msg_eqb x y
   | RMsg d b, RMsg d' b' => (d =? d') && bytes_eqb b b'
   | RErr e, RErr e' => err_eqb e e'
+  | RMsgsErr x e, RMsgsErr y e' => list_eqb msg_eqb x y && option_eqb err_eqb e e'
   | _, _ => false
   end.
 Definition snap_eqb (a b : snap) : bool :=
